@@ -650,6 +650,7 @@ static void exec_hash(Run &r, int t, int i, const J &op) {
   record_result(r, t, i, vfmt("%s -> %s errno=%d", c.kind.c_str(), c.ret_null ? "NULL" : ("\"" + c.res + "\"").c_str(), c.failed ? err : 0));
   stat(c.failed ? "calls_failed" : "calls_succeeded");
   stat("op_" + c.kind);
+  if (!c.failed) stat("hashed_" + op.str("m", "?"));
   if (c.failed && prior == "success") stat("probe_failure_after_success_same_object");
   if (c.failed && prior == "failure") stat("probe_failure_after_failure_same_object");
   if (!c.failed && prior == "failure") stat("probe_success_after_failure_same_object");
@@ -738,6 +739,7 @@ static void exec_hash(Run &r, int t, int i, const J &op) {
     stat("probe_stack_scans");
 #endif
     stat("probe_residue_scans");
+    stat("scanned_" + op.str("m", "?") + (c.failed ? "_failing" : ""));
   }
   (void)dr;
   // ---------------- crypt_ra protocol (C14)
